@@ -12,7 +12,7 @@ assert s.count(old)>=1, "pattern not found"
 open(p,'w').write(s.replace(old,new,1))
 PY
 [ $? -eq 0 ] || { rm -rf "$WT"; exit 3; }
-TEMPEST_REPO="$WT" /verif/check "$P" --tier quick 2>&1 | grep -v "depends on\|does not depend" | cut -c1-400 | tail -9
+VERIF_EVIDENCE_DIR="$WT/evidence" TEMPEST_REPO="$WT" /verif/check "$P" --tier quick 2>&1 | grep -v "depends on\|does not depend" | cut -c1-400 | tail -9
 rm -rf "$WT"
 # restore generated files from the real tree
 TEMPEST_REPO=/repo PYTHONPATH=/verif /venv/bin/python -c "
